@@ -274,6 +274,21 @@ def rule_finite_default(ctx):
     if not any(isinstance(sub, ast.Call) and _ctor_name(sub) in (INT_CTORS | FLOAT_CTORS) and sub.args for sub in walk_shallow(fi.node)):
         dl = _ctor_delegates(p, fi)
         if dl:
+            # what num() itself returns is still its business: the delegate's result, the text, or the caller's default
+            dflt_ = fi.params()[2] if len(fi.params()) > 2 else None
+            dnames = {f.name for f in dl}
+            locals_from_delegate = {t.id for a_ in walk_shallow(fi.node) if isinstance(a_, ast.Assign) and isinstance(a_.value, ast.Call)
+                                    and _ctor_name(a_.value) in dnames for t in a_.targets if isinstance(t, ast.Name)}
+            for r_ in [s_ for s_ in walk_shallow(fi.node) if isinstance(s_, ast.Return) and s_.value is not None]:
+                v = r_.value
+                ok_ret = (isinstance(v, ast.Call) and _ctor_name(v) in dnames) or (isinstance(v, ast.Name) and v.id in (
+                    {x, dflt_} | locals_from_delegate))
+                if not ok_ret:
+                    ctx.bad("HDR.FINITE", fi.qual + "#returns", fi, r_, "SectionParser.num: returns `%s`, which is neither the result of the "
+                            "conversion helper for this call, nor the original text, nor the caller's default (a value remembered from "
+                            "another call ignores this call's default)" % unparse(v))
+                    ctx.floor("HDR.FINITE", 0)
+                    return
             ctx.undecided("HDR.FINITE", fi.qual + "#returns", fi, fi.node, "num() delegates the conversion to %s: the int-first / "
                           "finite-float / verbatim-fallback shape of the result is not decided across the call" % ", ".join(f.qual for f in dl))
             ctx.floor("HDR.FINITE", 0)
@@ -329,7 +344,15 @@ def rule_finite_default(ctx):
     # the probing form: the integer constructor is tried inside a `try`, the float constructor only after it failed
     from sa.astutil import protecting_try as _ptry
     int_calls = [c for c in walk_shallow(fi.node) if isinstance(c, ast.Call) and _ctor_name(c) in INT_CTORS and c.args]
-    probing = bool(int_calls) and all(_ptry(c) is not None for c in int_calls)
+    def _in_try_body(c):
+        cur = c
+        par = getattr(cur, "_parent", None)
+        while par is not None and not isinstance(par, (ast.FunctionDef, ast.Lambda)):
+            if isinstance(par, ast.Try) and any(cur is st or any(cur is x for x in ast.walk(st)) for st in par.body):
+                return True
+            cur, par = par, getattr(par, "_parent", None)
+        return False
+    probing = bool(int_calls) and all(_in_try_body(c) for c in int_calls)
     not_probing = None
     if ints and floats and probing:
         pth = cfg.find_path(cfg.entry, floats, avoid=ints)
@@ -395,6 +418,13 @@ def rule_exempt(ctx):
         tests = []
         for nid in cfg.node_of_expr(call):
             tests += [(cfg.nodes[tn].ast, lab) for (tn, lab) in cd.transitive(nid) if cfg.nodes[tn].kind == "test"]
+        # conditional expressions around the call: `self.num(v) if numeric else v`
+        cur = call
+        par = getattr(cur, "_parent", None)
+        while par is not None and not isinstance(par, ast.stmt):
+            if isinstance(par, ast.IfExp) and cur is not par.test:
+                tests.append((par.test, "true" if cur is par.body else "false"))
+            cur, par = par, getattr(par, "_parent", None)
         if not tests:
             ctx.bad("HDR.EXEMPT", site, fi, call, "the conversion in metadata() is unconditional: API and UWI values lose "
                     "their leading zeros")
@@ -464,11 +494,24 @@ def _inline_locals(t, fi):
             defs.setdefault(s_.targets[0].id, []).append(s_.value)
     single = {k: v[0] for k, v in defs.items() if len(v) == 1 and not isinstance(v[0], (ast.List, ast.Tuple, ast.Dict, ast.Constant))}
 
+    consts = {}
+    if fi.cls is not None:
+        for st in fi.cls.node.body:
+            if isinstance(st, ast.Assign) and len(st.targets) == 1 and isinstance(st.targets[0], ast.Name) and isinstance(
+                    st.value, (ast.Tuple, ast.List, ast.Set, ast.Constant)) and all(isinstance(e, ast.Constant) for e in getattr(st.value, "elts", [])):
+                consts[st.targets[0].id] = st.value
+
     class T(ast.NodeTransformer):
         def visit_Name(self, node):
             if node.id in single and isinstance(node.ctx, ast.Load):
                 return copy.deepcopy(single[node.id])
             return node
+
+        def visit_Attribute(self, node):
+            # a literal kept as a class attribute (`NUMBER_STRINGS = ("API", "UWI")`) is that literal
+            if isinstance(node.value, ast.Name) and node.value.id in ("self", "cls") and node.attr in consts and isinstance(node.ctx, ast.Load):
+                return copy.deepcopy(consts[node.attr])
+            return self.generic_visit(node)
     out = t
     for _ in range(3):
         out = T().visit(copy.deepcopy(out))
